@@ -98,3 +98,42 @@ def run_cvc5(smt2, timeout_ms):
 
 def run_z3new(smt2, timeout_ms):
     return _run(["z3-new", "-T:%d" % max(1, timeout_ms // 1000)], smt2, timeout_ms, "z3-new")
+
+
+def check_smt2(smt2, timeout_ms=10000):
+    """solve a serialised query: z3 (short), cvc5, z3 (full budget), z3-new"""
+    t0 = time.time()
+    try:
+        ctx = z3.Context()
+        s = z3.Solver(ctx=ctx)
+        s.from_string(smt2)
+    except z3.Z3Exception as e:
+        return {"verdict": "unknown", "backend": "z3", "time_s": 0.0, "model": None, "reason": "parse: %s" % e}
+    asserts = list(s.assertions())
+
+    def model_dict(m):
+        return {str(d): str(m[d])[:200] for d in m.decls() if d.arity() == 0 and "!" not in str(d)}
+    first = min(timeout_ms, 2000)
+    s.set("timeout", first)
+    r = s.check()
+    if r == z3.unsat:
+        return {"verdict": "unsat", "backend": "z3", "time_s": round(time.time() - t0, 4), "model": None}
+    if r == z3.sat and model_ok(s.model(), asserts):
+        return {"verdict": "sat", "backend": "z3", "time_s": round(time.time() - t0, 4), "model": model_dict(s.model())}
+    res = run_cvc5(smt2, timeout_ms)
+    if res["verdict"] == "unsat":
+        res["time_s"] = round(time.time() - t0, 4)
+        return res
+    if first < timeout_ms:
+        s.set("timeout", timeout_ms)
+        r = s.check()
+        if r == z3.unsat:
+            return {"verdict": "unsat", "backend": "z3", "time_s": round(time.time() - t0, 4), "model": None}
+        if r == z3.sat and model_ok(s.model(), asserts):
+            return {"verdict": "sat", "backend": "z3", "time_s": round(time.time() - t0, 4), "model": model_dict(s.model())}
+    if res["verdict"] == "sat":      # cvc5 says sat but z3 could not produce a model: report without model
+        res["time_s"] = round(time.time() - t0, 4)
+        return res
+    res2 = run_z3new(smt2, timeout_ms)
+    res2["time_s"] = round(time.time() - t0, 4)
+    return res2
